@@ -1545,6 +1545,13 @@ class Interp(Ops, Builtins, DynOps):
                         raise EngineError(f"contract of {short} may raise; not usable in a spec expression")
                     if self.ctx.branch(cond, f"raises.{short}.{exc}@{getattr(node, 'lineno', 0)}"):
                         raise PyRaise(VExc(exc), node)
+            # the callee may allocate: the set of allocated references grows (ensures may say what became allocated)
+            r_ = z3.Int("r!al")
+            new_alloc = ctx.fresh("alloc", ctx.alloc.sort())
+            ctx.assume(z3.ForAll([r_], z3.Implies(z3.Select(ctx.alloc, r_), z3.Select(new_alloc, r_))))
+            for w in ctx.fresh_refs:
+                ctx.assume(z3.Select(new_alloc, w))
+            ctx.alloc = new_alloc
             if c.returns is None:
                 res = NONE
             elif callable(c.returns) and not isinstance(c.returns, T):
